@@ -229,6 +229,7 @@ def run(res: Results, idx: Index, tier: str) -> None:
 
     rule_f(res, idx)
     rule_g(res, idx)
+    rule_h(res, idx)
     # ---- R-C04e: two symbols are never assumed equal outside the dimension lowering either
     # (decided by their own properties' rules; re-decided here because they are C04's clause "equal/unequal symbols")
     if not getattr(res, "_nested_xref", False):
@@ -388,3 +389,48 @@ def rule_g(res: Results, idx: Index) -> None:
         if isinstance(st, ast.If) and st.orelse:
             hit = any(isinstance(x, ast.Assign) and isinstance(x.value, ast.Subscript) and isinstance(x.value.value, ast.Name) and x.value.value.id == "sizes" for b in st.orelse for x in ast.walk(b))
     res.control("R-C04g", "a symbolic branch that takes sizes[0] where the static branch sums is recognised", hit, "")
+
+
+# ---------------------------------------------------------------------------------------------- R-C04h
+def rule_h(res: Results, idx: Index) -> None:
+    """R-C04a keeps the memo keys of DIFFERENT producers apart.  Inside one producer the key still has to determine the
+    memoised value: every parameter of the method that the cached value is computed from must be something the key is
+    computed from (`_lower_op(name, operands)` keyed by the operands alone returns the Div node of `b // 2` for `b % 2`).
+    Instances: methods that test / read and write an instance-level cache (`self.<…cache…>[key]`)."""
+    res.rule("R-C04h", "instance-level memo tables of the dimension lowering are keyed by every parameter the cached value depends on", floor=3)
+    n = 0
+    for m in idx.product_modules():
+        if not m.rel.startswith("jax2onnx/converter/"):
+            continue
+        for fi in m.funcs.values():
+            writes = [x for x in walk_no_nested(fi.node) if isinstance(x, ast.Assign) and len(x.targets) == 1 and isinstance(x.targets[0], ast.Subscript) and isinstance(x.targets[0].value, ast.Attribute)
+                      and isinstance(x.targets[0].value.value, ast.Name) and x.targets[0].value.value.id == "self" and ("cache" in x.targets[0].value.attr.lower() or "memo" in x.targets[0].value.attr.lower())]
+            if not writes:
+                continue
+            attr = writes[0].targets[0].value.attr
+            reads = [x for x in walk_no_nested(fi.node) if (isinstance(x, ast.Subscript) and isinstance(x.ctx, ast.Load) and isinstance(x.value, ast.Attribute) and x.value.attr == attr)
+                     or (isinstance(x, ast.Compare) and any(isinstance(c, ast.Attribute) and c.attr == attr for c in x.comparators))
+                     or (isinstance(x, ast.Call) and isinstance(x.func, ast.Attribute) and x.func.attr == "get" and isinstance(x.func.value, ast.Attribute) and x.func.value.attr == attr)]
+            if not reads:
+                continue
+            du = defuse(fi.node)
+            a = fi.node.args  # type: ignore[attr-defined]
+            params = {x.arg for x in a.posonlyargs + a.args + a.kwonlyargs} - {"self", "cls"}
+            for w in writes:
+                n += 1
+                key_e = w.targets[0].slice
+                key = f"{m.rel}::{fi.qualname}::memo::self.{attr}"
+                site = f"{m.rel}:{w.lineno}"
+                key_deps = (du.closure(names_in(key_e)) | names_in(key_e)) & params
+                val_names = du.closure(names_in(w.value)) | names_in(w.value)
+                # drop what the value reaches only through the key / the table itself
+                val_deps = set()
+                for nm in val_names & params:
+                    val_deps.add(nm)
+                missing = sorted(val_deps - key_deps)
+                if missing:
+                    res.violation("R-C04h", site, key, f"`self.{attr}[{src(key_e, 30)}] = {src(w.value, 40)}`: the cached value is computed from the parameter(s) {missing}, which the key does not contain — the first "
+                                  "request's node is returned for every later request that differs only there (another dimension operation on the same operands)", fi.qualname)
+                else:
+                    res.ok("R-C04h", site, key, f"key `{src(key_e, 40)}` covers {sorted(val_deps) or 'no parameter'}", fi.qualname)
+    res.analysed["instance_memo_writes"] = n
